@@ -54,6 +54,14 @@ func init() {
 	}, Explanation: "wip"})
 }
 
+func init() {
+	registerProp(&propDef{ID: "C15", Rules: func(c *Ctx) {
+		c.ruleLangEq()
+		c.ruleAttach("@immutable", "@testonly", "@mutable", "@implements", "@constructor", "@packageonly", "@ignore")
+		c.rulePost("@constructor", "@packageonly", "@ignore")
+	}, Explanation: "wip"})
+}
+
 func cmdCheck(args []string) int {
 	prop, tier := "", "quick"
 	for i := 0; i < len(args); i++ {
